@@ -145,6 +145,29 @@ def run(full=False):
         bad = os.path.join(ctx.scratch, "jx-bad2.ndjson")
         mutate_trace(jfile, bad, not_row)
         expect_reject(ctx, "TraceJax: one annotation row of the file set turned into a NOT row", "trace/TraceJax.cfg", "trace/TraceJax.tla", bad, results)
+        # --- TraceGroup: recorded group events are accepted; a wrong insertion reply and a duplicated id in a union are rejected
+        gtf = os.path.join(ctx.scratch, "gr.ndjson")
+        hv(ctx, "record-group", trace=gtf, runs=20)
+        ok, _ = tlc_trace(ctx, "trace/TraceGroup.cfg", "trace/TraceGroup.tla", gtf)
+        results.append(("unmodified recorded group events accepted (TraceGroup)", ok))
+
+        def flip_reply(recs):
+            for r in recs:
+                if r.get("e") == "Ins":
+                    r["new"] = not r["new"]
+                    return
+        bad = os.path.join(ctx.scratch, "gr-bad1.ndjson")
+        mutate_trace(gtf, bad, flip_reply)
+        expect_reject(ctx, "TraceGroup: one insertion reply flipped", "trace/TraceGroup.cfg", "trace/TraceGroup.tla", bad, results)
+
+        def dup_union(recs):
+            for r in recs:
+                if r.get("e") == "Ops" and r["union"]:
+                    r["union"] = r["union"] + [r["union"][-1]]
+                    return
+        bad = os.path.join(ctx.scratch, "gr-bad2.ndjson")
+        mutate_trace(gtf, bad, dup_union)
+        expect_reject(ctx, "TraceGroup: the last id of one recorded union duplicated", "trace/TraceGroup.cfg", "trace/TraceGroup.tla", bad, results)
         # --- the design-level invariants have teeth: mutated SPECIFICATIONS must be refuted by TLC
         import shutil, re as _re
         specmut = [
